@@ -211,6 +211,8 @@ def rich_prog(
                 spec["seq"] = True
         if draw(st.sampled_from([True, False, False, False])):
             spec["qual"] = f"mk.<locals>.{fn}"  # a function defined inside another function
+        if draw(st.integers(0, 11)) == 0:
+            spec["partial"] = True  # the node function is a functools.partial object
         spec.update(extra)
         fns[fn] = spec
         return fn
